@@ -18,7 +18,7 @@ IsContext(t)   == t.k = "named" /\ t.p = "Scontext" /\ t.n = "Context"
 
 \* template/var.go Nillable(): can the variable hold nil?  (var.go also answers true for arrays, which cannot: the
 \* contract leaves arrays open -- "any" -- instead of copying that quirk.)
-NillableNamed == {"I", "LI", "GI", "LGI", "RW", "LG2", "TI", "Reader", "Writer", "ReadWriter", "Context", "Stringer", "Locker", "LS"}
+NillableNamed == {"I", "LI", "GI", "LGI", "RW", "LG2", "TI", "Reader", "Writer", "ReadWriter", "Context", "Stringer", "Locker", "LS", "EI", "LEI"}
 ExpNillable(t) == CASE t.k \in {"ptr", "map", "iface", "func", "chan", "slice", "tp"} -> "true"
                     [] t.k = "array" -> "any"
                     [] t.k = "basic" -> IF t.n \in {"error", "any"} THEN "true" ELSE "false"
@@ -46,4 +46,31 @@ ExpMethod(m) ==
 ExpData(methods, tps) ==
   [methods |-> [i \in 1..Len(methods) |-> ExpMethod(methods[i])],
    tparams |-> [i \in 1..Len(tps) |-> tps[i].n]]
+
+(* ------------------------------------------------------------------------ *)
+(* Input classes of spec/DataModelShapes.tla (classification only: c14.py's  *)
+(* vacuity guards ask TLC which exported programs contain them).            *)
+\* ONE variable's type mentions a package again, the later mention being a generic instantiation with a type argument
+\* from a package not met before (traversal order of the type term: the order in which a renderer meets the packages)
+RECURSIVE RepW(_, _), RepSeq(_, _)
+RepSeq(ts, acc) == IF ts = << >> THEN acc ELSE RepSeq(Tail(ts), RepW(Head(ts), acc))
+RepVarTypes(vs) == [i \in 1..Len(vs) |-> vs[i].t]
+RepW(t, acc) ==
+  CASE t.k \in {"basic", "tp"} -> acc
+    [] t.k = "unsafe" -> [acc EXCEPT !.seen = @ \cup {"Sunsafe"}]
+    [] t.k = "named"  -> [acc EXCEPT !.seen = @ \cup {t.p}]
+    [] t.k = "inst"   -> LET fresh == (UNION {RefPkgs(t.as[i]) : i \in 1..Len(t.as)}) \ (acc.seen \cup {t.p})
+                         IN RepSeq(t.as, [seen |-> acc.seen \cup {t.p}, hit |-> acc.hit \/ (t.p \in acc.seen /\ fresh # {})])
+    [] t.k \in {"ptr", "slice", "array", "chan"} -> RepW(t.e, acc)
+    [] t.k = "map"    -> RepW(t.e, RepW(t.key, acc))
+    [] t.k = "func"   -> RepSeq(RepVarTypes(t.rs), RepSeq(RepVarTypes(t.ps), acc))
+    [] t.k = "struct" -> RepSeq([i \in 1..Len(t.fs) |-> t.fs[i].t], acc)
+    [] t.k = "union"  -> RepSeq(t.ts, acc)
+    [] t.k = "plain"  -> RepW(t.e, acc)
+    [] t.k = "iface"  -> RepSeq(t.es, RepSeq(Flatten([i \in 1..Len(t.ms) |-> RepVarTypes(t.ms[i].ps) \o RepVarTypes(t.ms[i].rs)]), acc))
+RepeatedPkgThenGenericArg(t) == RepW(t, [seen |-> {}, hit |-> FALSE]).hit
+\* positions i whose parameter has the same go/types type as the next one (a variadic `...T` IS `[]T`): the pairs a
+\* renderer may be tempted to merge; merging is Go only when both are SPELLED alike in the list
+SameTypeAsNext(m) == {i \in 1..(Len(m.ps) - 1) : ParamType(m, i) = ParamType(m, i + 1)}
+SliceThenVariadicOfElem(m) == m.va /\ (Len(m.ps) - 1) \in SameTypeAsNext(m)
 =============================================================================
